@@ -452,12 +452,14 @@ RUNTIME_SCENARIOS = [
     ("path-with-nul-character", "A = EEMSRead(InFileName = \"da\x00ta.csv\", InFieldName = a)\n", {}),
     ("path-too-long", "A = EEMSRead(InFileName = %s.csv, InFieldName = a)\n" % ("d" * 5000), {}),
     ("write-path-with-nul-character", "A = EEMSRead(InFileName = in.csv, InFieldName = a)\nW = EEMSWrite(OutFileName = \"o\x00.csv\", OutFieldNames = [A])\n", {}),
+    ("invalid-direction-among-namesakes", "A = EEMSRead(InFileName = in.csv, InFieldName = a)\nF = CvtToFuzzy(InFieldName = A,\n   Direction = Sideways)\n\n\nG = CvtToFuzzy(InFieldName = A,\n\n   Direction = LowToHigh)\nH = CvtToBinary(InFieldName = A, Threshold = 1,\n  Direction = HighToLow)\n", {}),
+    ("line-separator-characters-above-the-fault", u"# form feed \x0c next line \x85 line separator \u2028 paragraph separator \u2029 in a comment\nA = EEMSRead(InFileName = in.csv, InFieldName = a, Metadata = [Note: \"vt \x0b ff \x0c fs \x1c ls \u2028\"])\n\nF = CvtToFuzzy(InFieldName = A,\n   Direction = Sideways)\n", {}),
     ("ok-model", "A = EEMSRead(InFileName = in.csv, InFieldName = a)\nF = CvtToFuzzy(InFieldName = A)\nW = EEMSWrite(OutFileName = out.csv, OutFieldNames = [A, F])\n", {}),
 ]
 
 
 # lines of the offending command in the run-time scenarios: an error that carries a line must carry one of these
-SCENARIO_LINES = {"mixed-shapes-1d": [3], "mixed-shapes-aminusb": [4, 5, 6], "empty-inputs": [1], "mismatched-weights": [2], "invalid-thresholds": [2],
+SCENARIO_LINES = {"invalid-direction-among-namesakes": [2, 3], "line-separator-characters-above-the-fault": [4, 5], "mixed-shapes-1d": [3], "mixed-shapes-aminusb": [4, 5, 6], "empty-inputs": [1], "mismatched-weights": [2], "invalid-thresholds": [2],
                   "invalid-direction": [2, 3], "invalid-number-to-consider": [3], "invalid-truest": [3], "mixed-lengths": [2], "duplicate-raw": [2],
                   "xor-one-input": [3], "cycle": [1, 2], "write-to-missing-dir": [2], "csv-empty-file": [1], "csv-missing-column": [1], "csv-non-numeric": [1],
                   "csv-empty-cell": [1], "csv-ragged-row": [1], "csv-header-only": [1, 2], "csv-binary-garbage": [1]}
